@@ -162,3 +162,37 @@ idem_short!(c11_idem_df5, 5);
 // @harness name=c11_idem_df11 props=C11 tier=thorough cap=900
 // re-feeding the DF11 frame just applied changes nothing
 idem_short!(c11_idem_df11, 11);
+
+fn tc19_no_velocity(m: &[u32], a: &Plane, b: &Plane) {
+    // subtypes other than 1/2 carry no ground velocity: track / ground speed stay as they were
+    vassert!(a.track == b.track && a.grspeed == b.grspeed, "C11: a TC19 squitter without ground velocity (subtype 0,3..7) changed track / ground speed");
+}
+// @harness name=c11_tc19_airspeed_subtypes props=C11,C09,C19 tier=quick cap=1200
+// DF17 TC19 subtypes 0,3,4,5,6,7 (airspeed/heading or reserved): vertical rate, GNSS altitude and heading may change; track and ground speed must not
+#[cfg_attr(kani, kani::proof)]
+#[cfg_attr(kani, kani::unwind(33))]
+#[cfg_attr(kani, kani::stub(chrono::Utc::now, crate::verif::rt::stub_now))]
+#[cfg_attr(kani, kani::stub(crate::decoder::get_downlink_format, super::rows::stub_get_df))]
+#[cfg_attr(kani, kani::stub(crate::decoder::adsb::icao::get_icao, super::rows::stub_get_icao))]
+#[cfg_attr(kani, kani::stub(crate::decoder::utils::get_message_type, super::rows::stub_get_tc))]
+#[cfg_attr(kani, kani::stub(crate::decoder::adsb::ais::ais, super::rows::stub_ais))]
+#[cfg_attr(verif_replay, test)]
+fn c11_tc19_airspeed_subtypes() {
+    let m = frame28();
+    pin_df(&m, 17);
+    pin_tc(&m, 19);
+    let st = bits(&m, 38, 40);
+    assume(st != 1 && st != 2);
+    let use_update = any_bool();
+    let relaxed = any_bool();
+    let mut p = any_row();
+    let Some((df, icao)) = accepted(&m) else { return };
+    p.icao = icao;
+    let before = clone_row(&p);
+    apply(&mut p, &m, df, use_update, relaxed);
+    vcover!(use_update && st == 3, "-U, subtype 3");
+    vcover!(!use_update && st == 4 && before.track.is_some(), "default path, subtype 4 on a row with a track");
+    vcover!(!use_update && st == 0, "default path, subtype 0");
+    tc19_no_velocity(&m, &before, &p);
+    assert_unchanged_except(&before, &p, F_VRATE | F_VRATE_SRC | F_ALT_GNSS | F_HDG | F_HDG_SRC | F_ALT_SRC | F_TRACK_SRC | F_CAP0 | F_BOOK);
+}
